@@ -10,11 +10,21 @@ from common import (Inconclusive, build_tool, cache_dir, instantiate_crate, log,
 BACKENDS = ["c", "cpp", "js", "dart", "kotlin", "nanobind", "demo_gen"]
 
 _anchor = None
+import threading
+_anchor_lock = threading.Lock()
 
 
 def anchor():
     """Build the working tree's proc macro + runtime once through cargo; return artifact paths
     so that generated crates can be compiled with plain rustc (0.2 s each, 16 in parallel)."""
+    global _anchor
+    if _anchor:
+        return _anchor
+    with _anchor_lock:
+        return _anchor_locked()
+
+
+def _anchor_locked():
     global _anchor
     if _anchor:
         return _anchor
